@@ -15,9 +15,9 @@ cp "$OUT/$DEMO" "$DST/demo.rs"
 cd "$WT" || exit 2
 git checkout -q -- . ; git checkout -q --detach $(git -C /repo rev-parse HEAD) ; git apply "$DST/patch.diff" || { echo "patch does not apply"; exit 2; }
 ( eval "$TESTCMD" ) > "$DST/tests_with_change.log" 2>&1; T=$?
-cp "$DST/demo.rs" "$CRATE/tests/seed_demo_$N.rs"
+mkdir -p "$CRATE/tests"; cp "$DST/demo.rs" "$CRATE/tests/seed_demo_$N.rs"
 cargo test -p "$CRATE" --offline --all-features --test "seed_demo_$N" > "$DST/demo_with_change.log" 2>&1; D=$?
-rm -f "$CRATE/tests/seed_demo_$N.rs"
+rm -f "$CRATE/tests/seed_demo_$N.rs"; rmdir "$CRATE/tests" 2>/dev/null
 echo "existing tests rc=$T (0 expected)  demo rc=$D (non-zero expected)"
 cd /verif
 for c in $CHECKS; do
